@@ -608,15 +608,27 @@ def prepare_file_offset_table(data_file_path: str) -> Optional[int]:
     if not file_offset_table.is_valid():
         console.info("Preparing file offset table for [%s] ... " % data_file_path, end="", flush=True)
         line_number = 0
-        with file_offset_table:
-            with open(data_file_path, encoding="utf-8") as data_file:
-                while True:
-                    line = data_file.readline()
-                    if len(line) == 0:
-                        break
-                    line_number += 1
-                    if line_number % 50000 == 0:
-                        file_offset_table.add_offset(line_number, data_file.tell())
+        # build the table under a temporary name and publish it only when it is complete: an unfinished table would be newer than
+        # the data file, i.e. the next run would consider it valid and not count the lines again.
+        final_path = file_offset_table.offset_table_path
+        file_offset_table.offset_table_path = f"{final_path}.tmp"
+        try:
+            with file_offset_table:
+                with open(data_file_path, encoding="utf-8") as data_file:
+                    while True:
+                        line = data_file.readline()
+                        if len(line) == 0:
+                            break
+                        line_number += 1
+                        if line_number % 50000 == 0:
+                            file_offset_table.add_offset(line_number, data_file.tell())
+            os.replace(file_offset_table.offset_table_path, final_path)
+        except BaseException:
+            if os.path.exists(file_offset_table.offset_table_path):
+                os.remove(file_offset_table.offset_table_path)
+            raise
+        finally:
+            file_offset_table.offset_table_path = final_path
         console.println("[OK]")
         return line_number
     else:
